@@ -13,6 +13,15 @@ from sansldap import asn1 as A
 from sansldap.asn1 import ASN1Reader, ASN1Tag, ASN1Writer, TagClass
 
 LEAN_TARGETS = ["Verif.Props.C07", "Verif.Props.C07More"]
+SECOND_TIE = {
+    "what": "the BER primitive functions of asn1.py (_pack_asn1_octet_number, _unpack_asn1_octet_number, _pack_asn1, _pack_asn1_integer, "
+            "_pack_asn1_boolean, _read_asn1_header, _validate_tag, _read_asn1_integer, _read_asn1_boolean) translated statement by statement from the "
+            "Python AST into Lean (harness/py2lean.py -> Generated/Asn1Gen.lean) and proved equal to the hand-written model of Model/Ber.lean "
+            "(Props/TiesAsn1.lean): the C07 theorems then speak about what the source says now",
+    "translator": "py2lean.py",
+    "targets": ["Verif.Props.TiesAsn1"],
+    "validate": "p_asn1gen.py",
+}
 LEVEL = "proof"
 ASSUMPTIONS = [
     "bytes are modelled as List Nat with the IsBytes (< 256) invariant",
